@@ -82,7 +82,9 @@ def oracleC03 (c : TCase) : Verdict :=
               { s with ended := s.ended || term, writes := s.writes + 1 }
           | some _, none => { s with needFull := true }
           | _, _ => { s with fail := some s!"malformed result: {t.raw}" }
-        | ["fault", "api:BodyContentAfterFinish"] =>
+        | ["fault", e] =>
+          -- "is refused": the property does not say with which error
+          if !e.startsWith "api:" then { s with fail := some s!"panic: {t.raw}" } else
           if s.ended && !input.isEmpty then s else { s with fail := some s!"write refused although the body is not finished (or input empty): {t.raw}" }
         | _ => if t.isPanic then { s with fail := some s!"panic: {t.raw}" } else { s with fail := some s!"unexpected result: {t.raw}" }
     | "canproceed" =>
@@ -146,10 +148,10 @@ def oracleC04 (c : TCase) : Verdict :=
             | some out =>
               if out != input.take k then { s with fail := some s!"output is not the consumed input prefix: {t.raw}" }
               else { s with left := s.left - k, finished := s.finished || s.left - k == 0 }
-        | ["fault", "api:BodyContentAfterFinish"] =>
-          if refuseAfter then s else { s with fail := some s!"refused as after-finish, but finished={s.finished}: {t.raw}" }
-        | ["fault", "api:BodyLargerThanContentLength"] =>
-          if refuseOver then s else { s with fail := some s!"refused as too large, but left={s.left}: {t.raw}" }
+        | ["fault", e] =>
+          -- "is refused": the property does not say with which error
+          if !e.startsWith "api:" then { s with fail := some s!"panic: {t.raw}" } else
+          if refuseAfter || refuseOver then s else { s with fail := some s!"a write that fits was refused (finished={s.finished}, left={s.left}): {t.raw}" }
         | _ => { s with fail := some s!"unexpected result: {t.raw}" }
     | "direct" =>
       match t.op, t.res with
@@ -158,7 +160,7 @@ def oracleC04 (c : TCase) : Verdict :=
          | some d => if d > s.left then { s with fail := some s!"direct write beyond the remaining length accepted: {t.raw}" }
                      else { s with left := s.left - d, finished := s.finished || s.left - d == 0 }
          | none => s)
-      | [_, n], ["fault", "api:BodyLargerThanContentLength"] =>
+      | [_, n], ["fault", _] =>
         (match n.toNat? with
          | some d => if d > s.left then s else { s with fail := some s!"direct write within the length refused: {t.raw}" }
          | none => s)
